@@ -124,6 +124,19 @@ class State:
         self.pc = o.pc; self.env = o.env; self.heap = o.heap; self.ghost = o.ghost
 
 
+class QForall:
+    """lazily instantiated universal fact / goal over one or more Int variables: fn(*terms) -> BoolRef"""
+    def __init__(self, fn, arity=1, name=''):
+        self.fn = fn; self.arity = arity; self.name = name
+
+    def eq(self, o):
+        return self is o
+
+    def guarded(self, cond):
+        f = self.fn
+        return QForall(lambda *a: z3.Implies(cond, f(*a)), self.arity, self.name)
+
+
 def is_z3(v):
     return isinstance(v, z3.ExprRef)
 
@@ -187,9 +200,12 @@ def merge_states(states, rets=None, base=None):
         return states[0], (rets[0] if rets else None)
     pcs = [s.pc for s in states]
     k = common_prefix(pcs)
-    conds = [mk_and(p[k:]) for p in pcs]
+    conds = [mk_and([x for x in p[k:] if not isinstance(x, QForall)]) for p in pcs]
     m = State()
     m.pc = list(pcs[0][:k]) + [z3.Or(*conds)]
+    for c_, p in zip(conds, pcs):
+        for x in p[k:]:
+            if isinstance(x, QForall): m.pc.append(x.guarded(c_))
     keys = set(states[0].env)
     for s in states[1:]: keys &= set(s.env)
     for key in keys:
